@@ -164,10 +164,21 @@ pub proof fn lemma_opt_items_push(cs: Seq<OPTCode>, c: OPTCode)
         proof { lemma_u32_octets(ttl, data@.subrange(p0 + 4, p0 + 8)); }
 """, where='before')
     c.loop_spec(rel, OPT_WF, 'parse', 0, """
-            invariant *position <= data.len(), data.len() <= isize::MAX, p0 + 10 <= *position,
+            invariant *position <= data.len(), data.len() <= isize::MAX, p0 + 10 <= *position, p0 == *old(position),
                 tlv16(data@, p0 + 10, opt_items(opt_codes@), *position as int), // @C09:options-decoded
             decreases data.len() - *position,
 """)
+    # completeness: an error inside the option loop means that no option list tiles the RDATA (C09: options are *exactly* the triples)
+    OPT_NONE = """
+                proof {
+                    assert forall|v: Self, e: int| !Self::wf_dec(data@, p0, &v, e) by {
+                        if Self::wf_dec(data@, p0, &v, e) {
+                            lemma_tlv16_next(data@, p0 + 10, opt_items(v.opt_codes@), data.len() as int, opt_items(opt_codes@), *position as int);
+                        }
+                    }
+                }
+"""
+    c.ghost_loop_exits(rel, OPT_WF, 'parse', OPT_NONE)
     c.ghost(rel, OPT_WF, 'parse', "opt_codes.push(OPTCode {", "            let ghost old_codes = opt_codes@;", where='before')
     c.ghost(rel, OPT_WF, 'parse', "*position += 4 + length;", """
             proof {
@@ -252,10 +263,22 @@ impl<'a> TXT<'a> {
 """, where='after')
     c.contract(rel, TXT_WF, 'parse', "", pre_body="\n        let ghost p0 = *position as int;\n")
     c.loop_spec(rel, TXT_WF, 'parse', 0, """
-            invariant *position <= data.len(), data.len() <= isize::MAX, p0 <= *position,
+            invariant *position <= data.len(), data.len() <= isize::MAX, p0 <= *position, p0 == *old(position),
                 lv8(data@, p0, txt_items(strings@), *position as int), // @C10:txt-strings-decoded
             decreases data.len() - *position,
-""", body_pre="\n            let ghost old_strings = strings@;\n")
+""", body_pre="""
+            let ghost old_strings = strings@;
+            proof {
+                // completeness: if the next string does not fit, no list of strings tiles the RDATA
+                if !(*position + 1 + data@[*position as int] <= data.len()) {
+                    assert forall|v: Self, e: int| !Self::wf_dec(data@, p0, &v, e) by {
+                        if Self::wf_dec(data@, p0, &v, e) {
+                            lemma_lv8_next(data@, p0, v.items(), data.len() as int, txt_items(strings@), *position as int);
+                        }
+                    }
+                }
+            }
+""")
     c.ghost(rel, TXT_WF, 'parse', "strings.push(char_str);", """
             proof {
                 lemma_txt_items_push(old_strings, strings@.last());
@@ -282,7 +305,8 @@ impl<'a> TXT<'a> {
     # ---- NSEC (RFC 4034 4.1): next domain name (never compressed) + type bit maps with strictly increasing windows
     rel = 'dns/rdata/nsec.rs'
     c.append(rel, """verus!{
-pub uninterp spec fn nsec_tail(v: &NSEC) -> Seq<u8>;
+/// the type bit maps as the (assumed) writer emits them: a function of the (window, bitmap) list
+pub uninterp spec fn nsec_tail(items: Seq<(u8, Seq<u8>)>) -> Seq<u8>;
 pub open spec fn nsec_items(ms: Seq<TypeBitMap>) -> Seq<(u8, Seq<u8>)> { ms.map(|i: int, m: TypeBitMap| (m.window_block, m.bitmap@)) }
 pub proof fn lemma_nsec_items_push(ms: Seq<TypeBitMap>, m: TypeBitMap)
     ensures nsec_items(ms.push(m)) == nsec_items(ms).push((m.window_block, m.bitmap@)), nsec_items(ms.push(m)).drop_last() == nsec_items(ms),
@@ -295,7 +319,7 @@ pub proof fn lemma_nsec_items_push(ms: Seq<TypeBitMap>, m: TypeBitMap)
     NSEC_WF = impl_header(c, rel, 'NSEC')
     wrap_type(c, rel, 'NSEC', """    open spec fn wf_ok(&self) -> bool { name_ok(self.next_name.lv()) }
     /// next domain name, then the type bit maps as the (assumed) writer orders them
-    open spec fn wf_enc(&self) -> Seq<u8> { name_enc(self.next_name.lv()) + nsec_tail(self) }
+    open spec fn wf_enc(&self) -> Seq<u8> { name_enc(self.next_name.lv()) + nsec_tail(nsec_items(self.type_bit_maps@)) }
     open spec fn wf_dec(data: Seq<u8>, p: int, v: &Self, p2: int) -> bool {
         &&& dec_labels(data, p, 0) == Some(v.next_name.lv())
         &&& wl8(data, p + inplace_len(data, p), nsec_items(v.type_bit_maps@), data.len() as int)
@@ -326,11 +350,30 @@ pub proof fn lemma_nsec_items_push(ms: Seq<TypeBitMap>, m: TypeBitMap)
     c.contract(rel, NSEC_WF, 'parse', "", pre_body="\n        let ghost p0 = *position as int;\n")
     c.ghost(rel, NSEC_WF, 'parse', "let mut type_bit_maps = Vec::new();", "        let ghost q0 = *position as int;", where='after')
     c.loop_spec(rel, NSEC_WF, 'parse', 0, """
-            invariant *position <= data.len(), data.len() <= isize::MAX, q0 <= *position,
+            invariant *position <= data.len(), data.len() <= isize::MAX, q0 <= *position, p0 == *old(position),
+                dec_labels(data@, p0, 0) == Some(next_name.lv()), q0 == p0 + inplace_len(data@, p0),
                 wl8(data@, q0, nsec_items(type_bit_maps@), *position as int), // @C10:nsec-bitmaps-decoded
                 strictly_increasing_u8(nsec_items(type_bit_maps@)), // @C10:nsec-windows-increasing
             decreases data.len() - *position,
-""", body_pre="\n            let ghost old_maps = type_bit_maps@;\n")
+""", body_pre="\n            let ghost old_maps = type_bit_maps@;\n            let ghost vx_q = *position as int;\n")
+    NSEC_NONE = """
+                proof {
+                    assert forall|v: Self, e: int| !Self::wf_dec(data@, p0, &v, e) by {
+                        if Self::wf_dec(data@, p0, &v, e) {
+                            let full = nsec_items(v.type_bit_maps@);
+                            let done = nsec_items(old_maps);
+                            lemma_wl8_next(data@, q0, full, data.len() as int, done, vx_q);
+                            let k = done.len() as int;
+                            if k > 0 {
+                                assert(full[k - 1] == done[k - 1]);
+                                assert(done[k - 1].0 == old_maps.last().window_block);
+                                assert(full[k - 1].0 < full[k].0);
+                            }
+                        }
+                    }
+                }
+"""
+    c.ghost_loop_exits(rel, NSEC_WF, 'parse', NSEC_NONE)
     c.ghost(rel, NSEC_WF, 'parse', "type_bit_maps.push(TypeBitMap {", """
             proof {
                 assert forall|i: int| 0 <= i < old_maps.len() implies (#[trigger] nsec_items(old_maps)[i]).0 < window_block by {
@@ -402,16 +445,32 @@ impl<'a> SVCB<'a> {
     proof fn lemma_rt(&self, pre: Seq<u8>) {}
 """, external_trait_fns=('write_to', 'len'))
     c.contract(rel, SVCB_WF, 'parse', "", pre_body="\n        let ghost p0 = *position as int;\n")
+    c.mark(rel, SVCB_WF, 'parse', '#[verifier::rlimit(30)]')
     c.ghost(rel, SVCB_WF, 'parse', "let mut params = BTreeMap::new();", "        let ghost q0 = *position as int;\n        let ghost mut items: Seq<(u16, Seq<u8>)> = Seq::empty();", where='after')
     c.loop_spec(rel, SVCB_WF, 'parse', 0, """
-            invariant *position <= data.len(), data.len() <= isize::MAX, q0 <= *position,
+            invariant *position <= data.len(), data.len() <= isize::MAX, q0 <= *position, p0 == *old(position),
+                q0 == p0 + 2 + inplace_len(data@, p0 + 2), p0 + 2 <= data.len(),
                 tlv16(data@, q0, items, *position as int), // @C10:svcb-params-decoded
                 strictly_increasing_u16(items), // @C10:svcb-keys-increasing
                 params_match(params@, items), // @C10:svcb-params-decoded
                 -1 <= previous_key <= 65535,
+                items.len() == 0 ==> previous_key == -1, items.len() > 0 ==> items.last().0 == previous_key,
                 forall|i: int| 0 <= i < items.len() ==> (#[trigger] items[i]).0 <= previous_key,
             decreases data.len() - *position,
 """, body_pre="\n            let ghost old_items = items;\n            let ghost old_map = params@;\n")
+    SVCB_NONE = """
+                proof {
+                    assert forall|v: Self, e: int| !Self::wf_dec(data@, p0, &v, e) by {
+                        if Self::wf_dec(data@, p0, &v, e) {
+                            let full = choose|its: Seq<(u16, Seq<u8>)>| #[trigger] tlv16(data@, q0, its, data.len() as int) && strictly_increasing_u16(its) && params_match(v.pv(), its);
+                            lemma_tlv16_next(data@, q0, full, data.len() as int, old_items, *position as int);
+                            let k = old_items.len() as int;
+                            if k > 0 { assert(full[k - 1] == old_items[k - 1]); assert(old_items[k - 1] == old_items.last()); assert(full[k - 1].0 < full[k].0); }
+                        }
+                    }
+                }
+"""
+    c.ghost_loop_exits(rel, SVCB_WF, 'parse', SVCB_NONE)
     c.ghost(rel, SVCB_WF, 'parse', "*position += 4 + value_length;", """
             proof {
                 let val = data@.subrange(*position + 4, *position + 4 + value_length);
